@@ -10,6 +10,7 @@ PROP = dict(
         "MM.C25.C25_start_implies",
         "MM.C25.C25_runs_validated",
         "MM.C25.C25_exec_surface",
+        "MM.C25.C25_bad_hash_admits_nothing",
         "MM.C25.C25_reject_keeps_counter",
         "MM.C25.C25_empty_whitelist",
         "MM.C25.C25_class_exact",
@@ -21,11 +22,14 @@ PROP = dict(
          "MaxSessions in {-1,0,1,2,3}) x requests (whitelisted names and near misses: path prefixes, case, blanks, NUL, backslash; "
          "arguments with each member of the regenerated metacharacter class at every position, every byte value, absolute paths, "
          "invalid UTF-8; right/wrong/empty passwords) run through validateAndAcquire (accessor), the real NewSession+Start and "
-         "NewPTYSession, ReleaseSession; argv / argvp ops read back exec.Cmd.Args of the session built by the real NewSession / NewPTYSession "
+         "NewPTYSession, ReleaseSession; fixed scripts (independent of the seed): live sessions (started `sleep`) interleaved with starts that FAIL after admission on both paths "
+         "(NewSession+Start and NewPTYSession: nonexistent whitelisted binary, nonexistent work_dir) for max_sessions 3 / 2 / unlimited, with counter == number of live "
+         "sessions checked after every op; 14 malformed or foreign password hashes (too short, plain text, $1$, cost 99, bad salt characters, truncated, extended, "
+         "hash of another password) x 6 presented passwords; argv / argvp ops read back exec.Cmd.Args of the session built by the real NewSession / NewPTYSession "
          "(arguments padded with blanks, CR/LF, tabs, NUL, NBSP, quotes around absolute paths and metacharacters) and compare it with the "
          "validated vector; plus concurrent acquire/release stress on a real Executor; non-trivial = request got past "
          "the enabled and password checks (whitelist / argument filter / counter actually consulted)",
-    nontrivial=lambda op, out: op.startswith("stress") or (op.split(" ")[0] in ("admit", "session", "pty", "argv", "argvp", "exec", "execp") and not out.startswith(("err disabled", "err authreq", "err badcreds"))),
+    nontrivial=lambda op, out: op.startswith("stress") or (op.split(" ")[0] in ("admit", "session", "pty", "argv", "argvp", "exec", "execp", "open", "close", "fails", "failp") and not out.startswith(("err disabled", "err authreq", "err badcreds"))),
     trusted_base=[
         "bcrypt is an abstract predicate pwOK(hash, password) in the theorems; T-diff instantiates it with real bcrypt hashes on the Go side and equality on the model side",
         "regexp.MatchString on a single ASCII character class = 'some byte of the string is in the class' (facts stage refuses any other pattern shape)",
